@@ -34,11 +34,27 @@ DOCS: dict[str, tuple[str, Any]] = {
            {"services": {"s1": {"component": {"q": 5}}, "s3": {"component": {"type": "T3S"}}}}),
     "S7": ("services:\n  - a\n  - b\n", {"services": ["a", "b"]}),
     "S8": ("services:\n  s1:\n    max_threads: 1\n", {"services": {"s1": {"max_threads": 1}}}),
+    # one mapping shared by two services through a YAML anchor / alias, and a later document overriding it for one of them only
+    "ANCH": ("services:\n  web:\n    component:\n      type: TW\n      db: &dbdefaults\n        url: sqlite\n        pool:\n          size: 5\n"
+             "  worker:\n    component:\n      type: TK\n      db: *dbdefaults\n",
+             {"services": {"web": {"component": {"type": "TW", "db": {"url": "sqlite", "pool": {"size": 5}}}},
+                           "worker": {"component": {"type": "TK", "db": {"url": "sqlite", "pool": {"size": 5}}}}}}),
+    "ANCH2": ("services:\n  web:\n    component:\n      db:\n        url: postgresql\n        pool:\n          size: 50\n",
+              {"services": {"web": {"component": {"db": {"url": "postgresql", "pool": {"size": 50}}}}}}),
     "TOP": ("max_threads: 3\nlogging:\n  version: 1\n  root:\n    handlers: [console]\nbackend: trio\nbackend_options:\n  debug: true\n",
             {"max_threads": 3, "logging": {"version": 1, "root": {"handlers": ["console"]}}, "backend": "trio", "backend_options": {"debug": True}}),
 }
 COMPONENT_DOCS = ["D1", "D2", "D3", "D4", "D9", "D10"]
 SERVICE_DOCS = ["S1", "S2", "S3", "S4", "S7", "S8", "TOP"]
+ANCHOR_CASES = [(["ANCH", "ANCH2"], svc) for svc in ("web", "worker")] + [(["ANCH"], "worker"), (["ANCH2", "ANCH"], "web")]
+# --set overrides that interact: the same key twice with an override of its parent in between, a child after its parent ...
+SET_TRIPLES = [
+    (("component.cache.ttl=10", ["component", "cache", "ttl"], 10), ("component.cache={backend: redis}", ["component", "cache"], {"backend": "redis"}),
+     ("component.cache.ttl=60", ["component", "cache", "ttl"], 60)),
+    (("component.a=1", ["component", "a"], 1), ("component.b=2", ["component", "b"], 2), ("component.a=3", ["component", "a"], 3)),
+    (("component.m={q: 1}", ["component", "m"], {"q": 1}), ("component.m.r=2", ["component", "m", "r"], 2), ("component.m.q=5", ["component", "m", "q"], 5)),
+    (("max_threads=4", ["max_threads"], 4), ("component.type=TSET", ["component", "type"], "TSET"), ("max_threads=6", ["max_threads"], 6)),
+]
 
 # --set menu: (argument, key path or None if malformed, parsed value)
 SETS_COMPONENT = [
@@ -143,6 +159,12 @@ def cases(tier: str) -> list:
                 if (sopt or senv) and len(ss) > 1:
                     continue
                 out.append({"files": list(files), "sets": [list(s) for s in ss], "service": sopt, "env": senv})
+    for files, svc in ANCHOR_CASES:
+        out.append({"files": list(files), "sets": [], "service": svc, "env": None})
+        out.append({"files": list(files), "sets": [], "service": None, "env": svc})
+    for files in ((), ("D1",), ("D1", "D2"), ("D3",)):
+        for triple in SET_TRIPLES:
+            out.append({"files": list(files), "sets": [list(x) for x in triple], "service": None, "env": None})
     for files in svc_files:
         setsets = [()] + [(s,) for s in SETS_SERVICE]
         if tier == "thorough":
